@@ -124,6 +124,7 @@ def dynamic_groups(prog, hist):
 
 class Check(E3Check):
     prop = "C03"
+    mc_workers = 3
     rule = ("Hypothesis recipe -> sound program over a generated hierarchy: 1-6 custom queues (serial and concurrent) all chained through target queues "
             "(dispatch_queue_create_with_target, or dispatch_queue_create + dispatch_set_target_queue) onto ONE bottom that is a serial queue or a workloop; "
             "1-4 threads issue every submission API at every level, dispatch_sync through several levels, awaits, nested submissions, suspend/resume, and retarget busy leaf "
